@@ -28,7 +28,17 @@ def extreme_mutation(case, rnd):
         return c, "none"
     i = rnd.choice(idx)
     d = bytearray(c.script[ci][i])
-    kind = rnd.choice(["byte", "byte", "word", "word", "tail", "all-ff"])
+    kind = rnd.choice(["byte", "byte", "word", "word", "tail", "all-ff", "bignum", "bignum"])
+    if kind == "bignum":
+        # text protocols carry their counts and indices as decimal text: put an extreme number where a number stands
+        import re
+        runs = list(re.finditer(rb"[0-9]+", bytes(d)))
+        if runs:
+            m = rnd.choice(runs)
+            big = rnd.choice([b"40000000", b"4294967295", b"4294967296", b"18446744073709551615", b"99999999999", b"2147483647", b"65535", b"16777216"])
+            c.script[ci][i] = bytes(d[:m.start()]) + big + bytes(d[m.end():])
+            return c, "extreme-bignum"
+        kind = "byte"
     pos = min(len(d) - 1, int(rnd.expovariate(1 / 10.0)))
     if kind == "byte":
         d[pos] = rnd.choice([0xFF, 0xFE, 0x7F, 0x80, 0xFD])
